@@ -30,6 +30,7 @@ type verifConn struct {
 	closed  chan struct{}
 	mu      sync.Mutex // a PacketConn may be used from several goroutines
 	isClose bool
+	closeErr error
 	log     []verifWrite
 }
 
@@ -63,7 +64,7 @@ func (c *verifConn) Close() error {
 		close(c.closed)
 	}
 	c.mu.Unlock()
-	return nil
+	return c.closeErr // a socket may report an error on close and is closed nevertheless
 }
 func (c *verifConn) LocalAddr() net.Addr                { return &net.UDPAddr{Port: 68} }
 func (c *verifConn) SetDeadline(t time.Time) error      { return nil }
@@ -90,15 +91,20 @@ type verifCtx struct {
 func newVerifCtx() *verifCtx { return &verifCtx{done: make(chan struct{})} }
 
 var errVerifCanceled = errors.New("verif: context canceled")
+var errVerifCloseFailed = errors.New("verif: close failed")
 
 func (c *verifCtx) Deadline() (time.Time, bool) { return time.Time{}, false }
 func (c *verifCtx) Done() <-chan struct{}        { return c.done }
 func (c *verifCtx) Err() error                   { return c.err }
 func (c *verifCtx) Value(key any) any            { return nil }
-func (c *verifCtx) cancelAt(t int64) {
+func (c *verifCtx) cancelAt(t int64) { c.endAt(t, errVerifCanceled) }
+
+// endAt ends the context at virtual instant t with the given error (context.Canceled,
+// context.DeadlineExceeded, or the harness's own sentinel).
+func (c *verifCtx) endAt(t int64, err error) {
 	verifAt(t, func() {
 		if c.err == nil {
-			c.err = errVerifCanceled
+			c.err = err
 			close(c.done)
 		}
 	})
